@@ -212,6 +212,10 @@ theorem Dev.construct_roundtrip (sem : DevSem α δ) (hl : sem.Lawful) (acc : De
 theorem semPlain_lawful : (semPlain : DevSem α δ).Lawful :=
   ⟨fun _ _ => rfl, fun _ _ _ => rfl, fun _ => rfl, fun _ => rfl, fun _ => rfl, fun _ => rfl⟩
 
+theorem semADevice_lawful [Add α] [Sub α] [Mul α] [Div α] [Neg α] [OfNat α 0] [OfNat α 1] [OfNat α 2]
+    [LT α] [LE α] [DecidableEq α] [DecidableLT α] [DecidableLE α] : (semADevice : DevSem α δ).Lawful :=
+  ⟨fun _ _ => rfl, fun _ _ _ => rfl, fun _ => rfl, fun _ => rfl, fun _ => rfl, fun _ => rfl⟩
+
 theorem semSDevice_lawful : (semSDevice : DevSem α δ).Lawful := by
   refine ⟨?_, fun _ _ _ => rfl, fun _ => rfl, fun _ => rfl, fun _ => rfl, fun _ => rfl⟩
   intro k v
